@@ -168,7 +168,7 @@ Proof.
     + assert (TA := tab_aligned_ok t' rows (proj2 S2) Er).
       destruct (s_step sch (E cur) (E t1) o) as [r|f r|r| |]; simpl in S1 |- *; try contradiction.
       * rewrite TA, Er, S1. apply table_eqb_refl.
-      * rewrite TA, Er, S1. destruct (sort_check f r) as [P S]. rewrite P, S. reflexivity.
+      * rewrite TA, Er, S1. apply table_eqb_refl.
       * exact TA.
     + simpl obs_rows. simpl in H2. rewrite Er. rewrite <- Hsch. rewrite <- Hsch in H2.
       apply (IH os sch' sch1); assumption.
